@@ -34,7 +34,7 @@ func (t *treq) argv() [][]byte {
 
 var strPool = []string{"k", "key1", "v", "", "a b", "x\r\ny", "\x00\xff\xfe", "+OK", "*1\r\n", "$-1", "NX", "match", "0", "-1", "1.5", "héllo", "\r\n+OK\r\n"}
 
-var intPool = []string{"0", "1", "-1", "5", "10", "100", "2147483648", "-9223372036854775808", "9223372036854775807", "+7", "007", "-0"}
+var intPool = []string{"0", "1", "-1", "5", "10", "100", "2147483648", "-9223372036854775808", "9223372036854775807", "+7", "007", "-0", "4611686018427387904", "-4611686018427387904", "9223372036854775806"}
 var badIntPool = []string{"abc", "1.5", "9223372036854775808", "-9223372036854775809", "", " 1", "1e3", "0x10", "1 ", "--1", "٣"}
 var floatPool = []string{"1", "-0", "0", "1.5", "-2.25", "1e308", "+inf", "-inf", "inf", "3.14159", "0x1p-2", ".5", "1e-7", "100", "9007199254740993", "4.9e-324", "+Inf", "Infinity"}
 var badFloatPool = []string{"abc", "", "(", "1.5.2", "--1", "1e", "0x", " 1"}
